@@ -3,12 +3,15 @@ CONSTANTS
   Kinds = {"send", "selfinv"}
   UseCancel = FALSE
   ApiModes = {FALSE}
+  UseSecond = FALSE
   TestRng = FALSE
 SPECIFICATION Spec
 INVARIANT TypeOK
 INVARIANT Inv_AtRest
 INVARIANT Inv_Fresh
 INVARIANT Inv_Wire
+INVARIANT Inv_SignsOnce
+INVARIANT Inv_Consumed
 PROPERTY EmitEdges
 VIEW View
 CHECK_DEADLOCK FALSE
